@@ -167,12 +167,12 @@ type x01DemergeEvent struct {
 	Batch   int      `json:"batch"`
 }
 
-func x01DemergeScenario(rng *rand.Rand, big bool) (key string, recs []x01Rec) {
+func x01DemergeScenario(rng *rand.Rand, seed int64, big bool) (key string, recs []x01Rec) {
 	n := 20 + rng.Intn(300)
 	if big {
 		n = 5200 + rng.Intn(500)
 	}
-	key = []string{"sample", "sample", "sample", "run", "absent", ""}[rng.Intn(6)]
+	key = []string{"sample", "", "sample", "run", "sample", "absent"}[int(uint64(seed)%6)]
 	fastq := rng.Intn(2) == 0
 	values := []string{"NA", "A", "B", "C", "soil 1", "x-7", "12", "true", "D", "E", "F", "G"}
 	for i := 0; i < n; i++ {
@@ -243,9 +243,9 @@ func x01RecordDemerge(env *Env, bindir, dir string) {
 		seed := jobs[i]
 		rng := rand.New(rand.NewSource(seed))
 		big := (i < nbig && env.opt("jobseed", "") == "") || env.opt("jobbig", "") == "1"
-		key, recs := x01DemergeScenario(rng, big)
+		key, recs := x01DemergeScenario(rng, seed, big)
 		ev := x01DemergeEvent{Sub: "demerge", Seed: seed, Key: key, Recs: recs, Out: []x01Rec{}, Status: "ok"}
-		useCmd := bindir != "" && (key == "" || big || rng.Intn(2) == 0)
+		useCmd := bindir != "" && (key == "" || big || (seed/6)%2 == 0)
 		if env.opt("joblevel", "") != "" {
 			useCmd = env.opt("joblevel", "") != "lib"
 		}
